@@ -28,20 +28,20 @@ def run(ctx: core.Run):
     # 2. exhaustive: every history of <= depth candidate operations from three small trees
     depth = 2 if ctx.quick else 3
     for recipe in T.SMALL_TREES:
-        lim = (4000 if recipe[0] == "nest" else None) if ctx.quick else (60000 if recipe[0] != "nest" else 25000)
+        lim = (4000 if recipe[0] == "nest" else None) if ctx.quick else (30000 if recipe[0] != "nest" else 12000)
         for d in range(1, depth + 1):
             hs = T.exhaustive_histories(recipe, d, level=1, limit=lim if d == depth else None, rng=rng)
             for h in hs:
                 traces.append(T.run_history(recipe, h, check_fresh=False))
             ctx.hist("exhaustive_histories", "%s depth %d" % (recipe[0], d), len(hs))
     if not ctx.quick:
-        hs = T.exhaustive_histories(("small", "L", 8), 4, level=1, limit=40000, rng=rng)
+        hs = T.exhaustive_histories(("small", "L", 8), 4, level=1, limit=20000, rng=rng)
         for h in hs:
             traces.append(T.run_history(("small", "L", 8), h, check_fresh=False))
         ctx.hist("exhaustive_histories", "small depth 4 (sample)", len(hs))
     # 3. random walks over every kind of initial tree
     recipes = T.walk_recipes()
-    n_walks, max_len = (150, 12) if ctx.quick else (1500, 60)
+    n_walks, max_len = (150, 12) if ctx.quick else (1000, 60)
     for k in range(n_walks):
         recipe = recipes[k % len(recipes)]
         ops = T.random_walk(recipe, rng, rng.randrange(3, max_len + 1), p_obs=0.1)
